@@ -33,7 +33,8 @@ Definition ModTransfer : Z := -4.                   (* ibc transfer module accou
 Definition Escrow (chan : Z) : Z := - (10 + chan).  (* ICS-20 escrow account of a local channel, chan >= 0 *)
 (* ModErc20 = -2 and Supply = -3 from M_Cache *)
 
-Inductive denom := DFx | DOwn (t : Z) | DAlias (t : Z) | DUnreg.
+Inductive denom := DFx | DOwn (t : Z) | DAlias (t : Z) | DUnreg
+  | DBase (t : Z).   (* the BASE coin of bridged token t itself: left by a plain ICS-20 transfer (escrowed), comes home unwound *)
 
 Inductive memo :=
 | NoMemo
@@ -107,7 +108,22 @@ Definition convert_coin (who t amt : Z) (s : ist) : result ist :=
 
 (* the asset a received / refunded voucher of this denom is held in *)
 Definition voucher_asset (d : denom) : Z * Z :=
-  match d with DFx => (AFx, 0) | DOwn t => (ACoin, t) | DAlias t => (AVoucher, t) | DUnreg => (AVoucher, -1) end.
+  match d with DFx => (AFx, 0) | DOwn t => (ACoin, t) | DAlias t => (AVoucher, t) | DUnreg => (AVoucher, -1) | DBase t => (ACoin, t) end.
+
+(* the receive-side rule of the middleware hook as a function of (denom class, receiver class) *)
+Inductive recv_rule :=
+| RKeepNative            (* FX: stays the native balance, hex or bech32 receiver *)
+| RRefuse                (* any other coin to a bech32 receiver: "only support hex address" *)
+| RPairOfVoucher (t : Z) (* voucher that is the coin of pair t: swapped for itself, then ConvertCoin through pair t *)
+| RPairOfBase (t : Z)    (* base coin of bridged token t come home: ConvertCoin through pair t *)
+| RNoPair.               (* alias-only or unregistered voucher: no pair under the voucher's name, refused *)
+Definition recv_rule_of (d : denom) (hex : bool) : recv_rule :=
+  match d with
+  | DFx => RKeepNative
+  | DOwn t => if hex then RPairOfVoucher t else RRefuse
+  | DBase t => if hex then RPairOfBase t else RRefuse
+  | DAlias _ | DUnreg => if hex then RNoPair else RRefuse
+  end.
 
 (* ------------------------------------------------------------------------------------------ *)
 Section Ibc.
@@ -121,6 +137,7 @@ Section Ibc.
     if ip_amt p <=? 0 then Err s else            (* FungibleTokenPacketData.ValidateBasic *)
     match ip_denom p with
     | DFx => pay s (Escrow (ip_dst p)) (ip_recv p) AFx 0 (ip_amt p)       (* unescrow *)
+    | DBase t => pay s (Escrow (ip_dst p)) (ip_recv p) ACoin t (ip_amt p) (* unescrow *)
     | d => let (k, t) := voucher_asset d in                               (* mint the voucher, send it to the receiver *)
            pay (mint s ModTransfer k t (ip_amt p)) ModTransfer (ip_recv p) k t (ip_amt p)
     end.
@@ -136,6 +153,11 @@ Section Ibc.
     let conv :=
       match ip_denom p with
       | DFx => Ok s
+      | DBase t =>
+          if negb (ip_hex p) then Err s else
+          (* IBCCoinToBaseCoin: not an ibc/ denom, nothing to swap; ConvertCoin through pair t *)
+          bind (convert_coin (ip_recv p) t (ip_amt p) s)
+               (fun s2 => Ok (with_log s2 (EvCredit (ip_recv p) t (ip_amt p))))
       | d =>
           if negb (ip_hex p) then Err s else          (* "only support hex address" *)
           let (k, t) := voucher_asset d in
@@ -206,6 +228,8 @@ Section Ibc.
         bind (pay s1 ModTransfer sender AVoucher t amt) (fun s2 =>
         bind (burn s2 sender AVoucher t amt) (fun s3 => Ok (new_packet s3 chan sender d amt false))))
     | DUnreg => Err s
+    | DBase t =>      (* MsgTransfer of the base coin itself: this chain is the source, the coin is escrowed *)
+        bind (pay s sender (Escrow chan) ACoin t amt) (fun s1 => Ok (new_packet s1 chan sender d amt false))
     end.
 
   (** ** acknowledgement / timeout callbacks of the application stack *)
@@ -239,6 +263,13 @@ Section Ibc.
                   (fun s4 => Ok (with_log s4 (EvReconv c q who t amt)))
         else Ok s3)))
     | DUnreg => Err s
+    | DBase t =>
+        (* unescrowed back to the sender; nothing to swap; IbcRefund: only a recorded transfer is re-converted *)
+        bind (pay s (Escrow c) who ACoin t amt) (fun s1 =>
+        if in_rel (rel s1) c q
+        then bind (convert_coin who t amt (with_rel s1 (del_rel (rel s1) c q)))
+                  (fun s2 => Ok (with_log s2 (EvReconv c q who t amt)))
+        else Ok s1)
     end.
 
   (* OnAcknowledgementPacket: error ack -> refund; success -> AfterIBCAckSuccess -> DeleteIBCTransferRelation *)
